@@ -57,8 +57,9 @@ def gen_config(name):
 
 
 def _classify_key_size(config, key_type, key_size):
-    if isinstance(key_size, str):
-        # size provided via a variable - can't process it at the moment
+    if isinstance(key_size, bool) or not isinstance(key_size, (int, float)):
+        # size provided via a variable (a str here) or a non-numeric
+        # literal - can't process it at the moment
         return
 
     key_sizes = {
